@@ -295,8 +295,7 @@ def units(tier):
     insts = [cav_ptr_inst('int', 'int', 4, tier), cav_ptr_inst('long', 'long', 4, tier), cav_ptr_volatile_inst(tier), range_inst(tier),
              string_inst('uptr', 'tainted', tier), string_inst('std', 'tainted', tier), string_inst('uptr', 'tainted_volatile', tier), string_inst('view', 'tainted', tier),
              volatile_address_inst('buffer_address', 'long', 8, tier), volatile_address_inst('unverified_safe', 'int', 4, tier)] + content_insts(tier)
-    if tier != 'quick':
-        insts.append(string_inst('std', 'tainted_volatile', tier))
+    insts.append(string_inst('std', 'tainted_volatile', tier))
     return [Unit('C09_snapshots', insts, extra_cpp=EXTRA_CPP)]
 
 
